@@ -217,6 +217,7 @@ type Sess struct {
 	Stalled          bool
 	nextReq          wamp.ID
 	drainDone        bool
+	draining         bool // a drainer goroutine was started
 	CliClosed        bool
 	SendTimeouts     int
 	Scribble         bool // in-process recipient that modifies what it receives
@@ -341,6 +342,7 @@ func (s *Sess) Party() *simrt.Group {
 
 // StartDrain starts the goroutine that reads everything the router sends.
 func (s *Sess) StartDrain() {
+	s.draining = true
 	simrt.GoIn(s.Party(), "drain:"+s.Name, s.drain)
 }
 
